@@ -26,7 +26,7 @@ const oTrunc = 0x200
 // the path/data they write are their own parameters.
 func (w *World) fileWritesOf(fn *ssa.Function, depth int) []fileWrite {
 	var out []fileWrite
-	if fn == nil || depth > 2 {
+	if fn == nil || depth > bound(2) {
 		return out
 	}
 	paramIdx := func(g *ssa.Function, v ssa.Value) int {
